@@ -104,6 +104,32 @@ META3 = {
  ("C15","F"): dict(needs="sync global function with max_memory; any miss", demo_dest="tests/", detected_by=["C15 (oracle stats: a miss booked twice)"]),
  ("C16","E"): dict(needs="async cache with limit AND max_memory; a stale refresh of a key that is not the newest with a value that fits alone but not beside the others", demo_dest="cachelito-async/tests/", detected_by=["C16 (panic 'attempt to subtract with overflow')"]),
  ("C16","F"): dict(needs="sync tlru with ttl and a frequency_weight near the end of the float range; a twice-hit entry left unvisited past its ttl, then an overflow", demo_dest="tests/", detected_by=["C16 (panic in partial_cmp().unwrap(): extreme weights with ttl are now in the C16 profile)"]),
+ ("C01","E"): dict(needs="sync function with >= 2 parameters one of them a string; two argument lists whose texts differ only in where a literal `|` sits", demo_dest="tests/", detected_by=["C01 (oracle pure on f178-f180: two string parameters with `|`)", "C02 (keys part)"]),
+ ("C01","F"): dict(needs="async invalidate_on refresh (or concurrent double store) in the same wall-clock second as the previous store", demo_dest="cachelito-async/tests/", detected_by=["C01 / C11 (oracle inv: fresh result did not replace the stale entry)"]),
+ ("C04","E"): dict(needs="sync global Result function with limit and invalidate_on; a stale entry whose refresh returns Err, then further stores", demo_dest="tests/", detected_by=["C04 (macro part C04R: scripted Result / invalidate_on / cache_if functions with a limit; oracle limit incl. queue-store consistency)"]),
+ ("C04","F"): dict(needs="async cache at its limit; invalidate_with with a predicate that is not a function of the key (a budget)", demo_dest="cachelito-async/tests/", detected_by=["C04 (budgeted-predicate events `invwb`: queue and stored keys disagree / more than limit entries)"]),
+ ("C05","E"): dict(needs="async cache; a store after which the total would be EXACTLY max_memory", demo_dest="cachelito-async/tests/", detected_by=["C05 (c05 predicate: eviction although it fits)"]),
+ ("C05","F"): dict(needs="scope = thread, Result return type, max_memory", demo_dest="tests/", detected_by=["C05 (oracle mem at macro level: total > max_memory)"]),
+ ("C06","E"): dict(needs="async; lookup at whole-second age exactly T whose recomputation stores nothing (Err / cache_if); limit; LFU/ARC/TLRU", demo_dest="cachelito-async/tests/", detected_by=["C06 (c06 predicate: expired entry not purged)"]),
+ ("C06","F"): dict(needs="sync global lru/arc/tlru with ttl; an older key hit after a younger one was stored, then looked up expired", demo_dest="tests/", detected_by=["C06 (oracle limit, now applied with ttl too: entries other than the looked-up key disappeared without overflow)"]),
+ ("C07","E"): dict(needs="async lru with limit >= 2, no max_memory; a hit while the cache is not yet full, then overflow", demo_dest="cachelito-async/tests/", detected_by=["C07 (c07 predicate)"]),
+ ("C07","F"): dict(needs="sync global fifo/lru with limit and a tag/event/dependency; group invalidation of a non-empty cache, then NEW keys", demo_dest="tests/", detected_by=["C07 (macro part with tag/event/dep/invc events; oracles order / limit)"]),
+ ("C08","E"): dict(needs="thread scope, entry limit without max_memory, lfu/arc/tlru; every resident entry has a hit when a new key overflows", demo_dest="tests/", detected_by=["C08 (c08 predicate)"]),
+ ("C08","F"): dict(needs="async arc/tlru with max_memory; one store that evicts two or more residents with hit counts that make the stale rank flip the second choice", demo_dest="cachelito-async/tests/", detected_by=["C08 (c08 predicate on multi-eviction stores; large-value scenario; corpus case)"]),
+ ("C11","E"): dict(needs="sync global max_memory + invalidate_on; a stale refresh whose result is too large to be cached, then the check accepts the old value again", demo_dest="tests/", detected_by=["C11 (oracle inv: stale entry survives an oversize refresh; values of 224 bytes in the scripted profiles)"]),
+ ("C11","F"): dict(needs="async invalidate_on refresh within the same wall-clock second as the store", demo_dest="cachelito-async/tests/", detected_by=["C11 (oracle inv)"]),
+ ("C12","E"): dict(needs="more than 16 caches (not a multiple of 16) under one tag/event/dependency", demo_dest="tests/", detected_by=["C12 (mass-label scenario over 18 caches: count and left-over entries)"]),
+ ("C12","F"): dict(needs="async cache with a tag; group invalidation while another thread is inside a store (queue mutex held)", demo_dest="cachelito-async/tests/", detected_by=["C12 (sched part, store parked in the user's MemoryEstimator under the queue lock: STALE)"]),
+ ("C13","E"): dict(needs="invalidate_all_with with a predicate that depends on the cache name; the same key in two caches", demo_dest="tests/", detected_by=["C13 (oracle frame for invalidate_all_with, per cache name)"]),
+ ("C13","F"): dict(needs="sync global ttl + limit, lru/arc/tlru; an entry read before it expires, expired and not looked up, then invalidated by predicate, then a store", demo_dest="tests/", detected_by=["C13 (oracle frame)"]),
+ ("C17","E"): dict(needs="sync global ttl; T1 sees the key expired and is parked before the purge, another thread stores a fresh value, T1 proceeds", demo_dest="tests/", detected_by=["C17 (sched part, same-key expired pair: DEADLOCK — the thread waits for a lock it holds)"]),
+ ("C17","F"): dict(needs="async max_memory; a store for an already stored key with a value larger than max_memory (sequential!)", demo_dest="cachelito-async/tests/", detected_by=["C17 (macro part: an operation of a sequential history never returned)", "C16"]),
+ ("C18","E"): dict(needs="async limit; a store that replaces a resident key racing the removal of that key", demo_dest="cachelito-async/tests/", detected_by=["C18 (sched part, stale-refresh schedules on invalidate_on functions: PANIC / LIMIT)"]),
+ ("C18","F"): dict(needs="sync global max_memory; a writer queueing for the map lock between the two read acquisitions of one store", demo_dest="tests/", detected_by=["C18 / C17 (sched part: DEADLOCK; locks part: re-acquisition of a held lock)"]),
+ ("C19","E"): dict(needs="sync function whose return type is spelled std::result::Result<..>; an Err then the same call", demo_dest="tests/", detected_by=["C19 (oracle err)"]),
+ ("C19","F"): dict(needs="async tlru with limit and frequency_weight != 1; hit counts for which the weight decides the victim", demo_dest="cachelito-async/tests/", detected_by=["C19 (oracle score / correspondence)"]),
+ ("C20","E"): dict(needs="async max_memory; a same-key call stores during the suspension, the resumed call's result is larger than max_memory", demo_dest="cachelito-async/tests/", detected_by=["C20 (oracle c20: result too large yet an entry for the key is still stored)"]),
+ ("C20","F"): dict(needs="async limit without max_memory, lfu/arc/tlru/random; a same-key call stores during the suspension, cache full, resume", demo_dest="cachelito-async/tests/", detected_by=["C20 (oracle c20: a replacing store evicted other entries / queue and stored keys disagree)"]),
 }
 
 
